@@ -6,6 +6,7 @@ mod mount;
 mod pure;
 mod reader;
 mod sd;
+mod seekvec;
 mod sim;
 mod vals;
 
@@ -143,6 +144,13 @@ fn main() {
             // vh crc <out.ndjson> <tier> <seed>
             let mut out = std::io::BufWriter::new(std::fs::File::create(&args[2]).expect("create out"));
             let r = pure::crc_vectors(&mut out, &args[3], args[4].parse().unwrap());
+            out.flush().unwrap();
+            println!("{}", r);
+        }
+        "seek" => {
+            // vh seek <out.ndjson> <tier> <seed>
+            let mut out = std::io::BufWriter::new(std::fs::File::create(&args[2]).expect("create out"));
+            let r = seekvec::seek_vectors(&mut out, &args[3], args[4].parse().unwrap());
             out.flush().unwrap();
             println!("{}", r);
         }
